@@ -56,4 +56,7 @@ def RowsSorted (rows : List (List Int)) : Prop := rows.Pairwise (fun a b => tupl
 /-- stacking the key columns into one array leaves the comparisons of column values unchanged -/
 def CastFaithful (cast : Int → Int) : Prop := ∀ a b : Int, a < b → cast a < cast b
 
+/-- … at least on the values that occur in the column -/
+def CastFaithfulOn (cast : Int → Int) (data : List Int) : Prop := ∀ a ∈ data, ∀ b ∈ data, a < b → cast a < cast b
+
 end Exetera.Spec
